@@ -26,8 +26,9 @@ def runOp (args impl : List String) : Option (String × String) := do
   -- when triggering stops (duration end or the caller's cancel); in-flight iterations may be abandoned
   -- only after the completion timeout has run from that moment
   let stopAt := if an "cancel" "-1" ≥ 0 ∧ an "cancel" "-1" < an "dur" "600" then an "cancel" "-1" else an "dur" "600"
-  -- (a config-file run also ends with its last stage: the trigger's own duration, reported by the harness)
-  let stopAtF := if arg "mode" "constant" = "file" ∧ n "trigdur" > 0 ∧ n "trigdur" < stopAt then n "trigdur" else stopAt
+  -- (a run also ends with the trigger's own duration — the last stage of a staged profile or of a config file, the end
+  -- of a ramp — which the harness reports)
+  let stopAtF := if n "trigdur" > 0 ∧ n "trigdur" < stopAt then n "trigdur" else stopAt
   let abandonedEarly := n "inflight" > 0 ∧ maxit = 0 ∧ (arg "mode" "constant" ≠ "file" ∨ n "trigdur" > 0) ∧
     n "ret" < stopAtF + an "timeout" "3000" - 60
   -- C05 (time): the Deadline model on this case's parameters (ms → ns); the limit and the drain are the run's own
